@@ -31,6 +31,11 @@ for kind in ("pfi", "sage", "batch", "interval"):
             CONFIGS.append((kind, storage, imputer))
 CONFIGS.append(("pfi", "geom", "river-labels"))
 CONFIGS.append(("sage", "geom", "river-labels"))
+# ONE model object, handed to the explainers as a raw bound method (so the library chooses and creates the wrapper): explaining the
+# same model again, or after another explainer has used it, must give the same results
+CONFIGS.append(("pfi", "geom", "river-shared"))
+CONFIGS.append(("sage", "geom", "river-shared"))
+CONFIGS.append(("sage-static", "geom", "river-shared"))
 
 
 def model(x):
@@ -67,6 +72,15 @@ def label_model():
     return RiverWrapper(Clf().predict_one)
 
 
+class river_like_clf:
+    """stands in for a river classifier (validate_model_function dispatches on 'river' in the type's name); stateless"""
+    def predict_one(self, x):
+        return "pos" if x["a"] > 0 else ("neg" if x["c"] < 2 else "mid")
+
+
+SHARED_MODEL = river_like_clf()
+
+
 def brier(y, p):
     """label-averaged squared error: sensitive to additional zero-probability labels"""
     want = "pos" if y > 0 else "neg"
@@ -88,6 +102,10 @@ def build(kind, storage, imputer):
         st = TreeStorage(cat_feature_names=["b"], num_feature_names=["a", "c"], max_depth=3, leaf_reservoir_length=3,
                          grace_period=5, seed=TREE_SEED)
     imp = None
+    if imputer == "river-shared":
+        cls = IncrementalPFI if kind == "pfi" else IncrementalSage
+        return cls(SHARED_MODEL.predict_one, brier, names, storage=st, n_inner_samples=2, smoothing_alpha=0.1,
+                   dynamic_setting=(kind != "sage-static"))
     if imputer == "river-labels":
         m = label_model()
         cls = IncrementalPFI if kind == "pfi" else IncrementalSage
@@ -121,10 +139,14 @@ def digest(ex):
     return repr((xs, ys))
 
 
-def run_once(cfg, sa, sb, n=14, decoys=False, record=False):
+def run_once(cfg, sa, sb, n=14, decoys=False, record=False, fresh_model=True):
     import random
     import numpy as np
+    global SHARED_MODEL
     kind, storage, imputer = cfg
+    if fresh_model:
+        # a model object the library has not seen before (whatever the library remembers about models it met earlier does not apply)
+        SHARED_MODEL = river_like_clf()
     if storage == "tree":
         n = 420      # long enough for the per-feature trees to split and, after the drift, to grow alternate sub-trees
     with warnings.catch_warnings():
@@ -141,6 +163,9 @@ def run_once(cfg, sa, sb, n=14, decoys=False, record=False):
             dex = build("sage", "geom", "joint")
             for x, y in stream(5, 99):
                 dex.explain_one(x, y)
+            dex2 = build("sage", "geom", "river-shared")      # another explainer on the very same model object
+            for x, y in stream(9, 97):
+                dex2.explain_one(x, y)
             MultiValueTracker(WelfordTracker()).update({"q": 1.0})
             from ixai.utils.wrappers import RiverWrapper
             dw = RiverWrapper(lambda x: "label-only-the-decoy-emits" if x["a"] > 0 else "another-decoy-label")
@@ -214,8 +239,8 @@ def run(tier="quick", seed=0, replay=None):
     for cfg in CONFIGS:
         try:
             a = run_once(cfg, sa, sb)
-            b = run_once(cfg, sa, sb)
-            c = run_once(cfg, sa, sb, decoys=True)
+            b = run_once(cfg, sa, sb, fresh_model=(cfg[2] != "river-shared"))     # river-shared: the SAME model object is explained again
+            c = run_once(cfg, sa, sb, decoys=True)                                 # river-shared: a decoy explainer used the same model first
             r1 = run_once(cfg, sa, sb, record=True)
             r2 = run_once(cfg, sa, sb, decoys=True, record=True)
             other = run_once(cfg, sa + 1, sb + 1)
